@@ -11,6 +11,10 @@ import PdfVerif.Lemmas.Xref
 import PdfVerif.Lemmas.XrefBytes
 import PdfVerif.Lemmas.XrefTable
 import PdfVerif.Lemmas.XrefScan
+import PdfVerif.Lemmas.XrefFind
+import PdfVerif.Lemmas.XrefHist
+import PdfVerif.Lemmas.XrefChain
+import PdfVerif.Lemmas.XrefLists
 
 namespace PdfVerif.Props.C02
 
@@ -89,7 +93,7 @@ theorem C02_xrefstm_entry (ranges : List (Nat × Nat)) (w1 w2 w3 : Nat) (rows : 
   have hspec := findIndex_rowSpec ranges rows n 0
   simp only [List.drop_zero] at hspec
   rw [← hspec]
-  simp only [XStream.getPos]
+  simp only [XStream.getPos, indexStart_eq]
   cases hi : findIndex ranges n 0 with
   | none => simp
   | some i =>
@@ -157,6 +161,48 @@ theorem C02_defaults (size : Nat) :
   refine ⟨rfl, rfl, rfl, rfl, rfl, rfl, ?_, ?_⟩
   · intro a b c; simp [zeroLengthRows]
   · intro off len; simp [rowInData]
+
+/-- Row addressing regenerated from `PDFXRefStream.load/get_pos/get_objids` means ISO 32000-1
+7.5.8.2–3: rows of `W1 + W2 + W3` bytes stored back to back, row `i` at `entlen · i`, the three
+fields cut in order; both readers address rows the same way; the `/Index` walk starts at row 0,
+a range `[s, s + c)` holding `n` gives row `acc + (n − s)`, any other range skips `c` rows. -/
+theorem C02_row_layout :
+    (∀ a b c, entlenOf a b c = a + b + c) ∧
+    (∀ e i, rowOffset e i = e * i ∧ objidsRowOffset e i = e * i) ∧
+    (∀ d off len, rowBytes d off len = (d.drop off).take len ∧ objidsRowBytes d off len = (d.drop off).take len) ∧
+    (∀ ent a b c, field1 ent a b c = ent.take a ∧ field2 ent a b c = (ent.drop a).take b ∧
+      field3 ent a b c = ent.drop (a + b) ∧ objidsField1 ent a b c = ent.take a) ∧
+    indexStart = 0 ∧
+    (∀ s c n, inRange s c n = true ↔ s ≤ n ∧ n < s + c) ∧
+    (∀ acc s c n, indexHit acc s c n = acc + (n - s) ∧ indexMiss acc s c n = acc + c) := by
+  refine ⟨fun _ _ _ => rfl, fun _ _ => ⟨rfl, rfl⟩, ?_, ?_, rfl, ?_, fun _ _ _ _ => ⟨rfl, rfl⟩⟩
+  · intro d off len
+    exact ⟨pySlice_window d off len, pySlice_window d off len⟩
+  · intro ent a b c
+    refine ⟨pySlice_prefix ent a, ?_, rfl, pySlice_prefix ent a⟩
+    exact pySlice_window ent a b
+  · intro s c n
+    simp [inRange]
+
+/-- `W = [1 2 1]`, row 1 of the data `00 0000 ff | 01 0123 00`: type 1, offset 0x0123, generation 0;
+object 7 in `/Index [3 2 7 4]` is row 2 + 0. -/
+example : (XStream.mk [(3, 2), (7, 4)] 1 2 1 [0, 0, 0, 255, 1, 1, 35, 0]).row 1 = (1, 291, 0) ∧
+    findIndex [(3, 2), (7, 4)] 7 indexStart = some 2 ∧ findIndex [(3, 2), (7, 4)] 5 indexStart = none := by
+  decide
+
+/-- Entry lines of the classic table regenerated from `PDFXRef.load` mean ISO 32000-1 7.5.4:
+`nnnnnnnnnn ggggg n` — first field the byte offset, second the generation, third the keyword; the stored
+tuple is `(None, offset, generation)`; a subsection `start count` numbers its lines `start … start+count−1`. -/
+theorem C02_table_entry_layout :
+    (∀ a b c : Bytes, entryTuple a b c = (a, b, c)) ∧
+    (∀ p g, mkEntry (tableEntryOf p g) = ⟨none, p, g⟩) ∧
+    (∀ s n : Int, subsectionFirst s n = s ∧ subsectionStop s n = s + n ∧ subCount s n = n.toNat) := by
+  refine ⟨fun _ _ _ => rfl, fun _ _ => rfl, fun s n => ⟨rfl, rfl, subCount_eq s n⟩⟩
+
+/-- `0000000017 00003 n` as object 7: offset 17, generation 3. -/
+example : (match tableEntries 1 7 [48, 48, 48, 48, 48, 48, 48, 48, 49, 55, 32, 48, 48, 48, 48, 51, 32, 110, 32, 10] 0 [] with
+    | .ok (offs, rest, pos) => offs == [((7 : Int), (⟨none, 17, 3⟩ : Entry))] && rest.isEmpty && pos == 20
+    | .error _ => false) = true := by decide
 
 /-- Keywords and field shapes of the classic table, and the chaining order (7.5.8.4: the
 table of a hybrid file is consulted first, then its `XRefStm`, then `Prev`). -/
@@ -254,6 +300,42 @@ theorem C02_chain_order (ph : Phys) (p1 p2 p3 : Nat) (d1 d2 d3 : SecDesc) (s1 s2
     bind, Except.bind, Except.map, pure, Except.pure]
 
 
+/-- The trailer chain of ANY number of revisions: starting at `start` (what `find_xref` returned),
+every revision being a plain section (classic table or cross-reference stream, `/Prev` → older one)
+or a hybrid pair (table with `/XRefStm` and `/Prev`; its stream carries neither), at pairwise different
+positions — the oldest one possibly with a circular `/Prev` pointing at itself — `read_xref_from` returns the sections newest first — the table of a hybrid revision
+directly before its stream — and has visited exactly their positions.  Generalises `C02_chain_order`. -/
+theorem C02_chain (ph : Phys) (start : Nat) (ps : List Nat) (L : List (Section × Trailer))
+    (h : Chain ph (some start) ps L) (hnd : ps.Nodup) (fuel : Nat) (hf : ps.length < fuel) :
+    readXrefFrom ph fuel start ([], []) = .ok (L, ps.reverse) := by
+  have := follow_chain h fuel [] [] hf (by intro p _ hm; cases hm) hnd
+  simpa [follow] using this
+
+/-- Non-vacuity: newest revision at 300 (`/Prev 200`), a hybrid revision at 200 (`/XRefStm 150`,
+`/Prev 100`), the original at 100. -/
+def exChainPh : Phys :=
+  ⟨[], [(100, .stream 2 none [1, 1, 1] [] ⟨none, none, some 1, none⟩),
+        (150, .stream 2 none [1, 1, 1] [] ⟨none, none, none, none⟩),
+        (200, .stream 2 none [1, 1, 1] [] ⟨some 100, some 150, some 1, none⟩),
+        (300, .stream 2 none [1, 1, 1] [] ⟨some 200, none, some 1, none⟩)], []⟩
+
+example : (readXrefFrom exChainPh 5 300 ([], [])).map (fun r => (r.1.map (·.2.prev), r.2)) =
+    .ok ([some 200, some 100, none, none], [100, 150, 200, 300]) := by
+  have hc : Chain exChainPh (some 300) [300, 200, 150, 100] _ :=
+    Chain.plain (p := 300) rfl rfl rfl
+      (Chain.hybrid (p := 200) (x := 150) rfl rfl rfl rfl rfl rfl rfl
+        (Chain.plain (p := 100) rfl rfl rfl Chain.done))
+  rw [C02_chain exChainPh 300 _ _ hc (by decide) 5 (by decide)]
+  rfl
+
+/-- The same with the executable hypothesis the harness evaluates per file (`q.chain`). -/
+theorem C02_chain_checked (ph : Phys) (start fuel' fuel : Nat) (ps : List Nat) (L : List (Section × Trailer))
+    (h : chainOf ph fuel' (some start) = some (ps, L)) (hn : nodupNat ps = true) (hf : ps.length < fuel) :
+    readXrefFrom ph fuel start ([], []) = .ok (L, ps.reverse) :=
+  C02_chain ph start ps L (chainOf_sound ph fuel' _ _ _ h) (nodupNat_sound ps hn) fuel hf
+
+example : (chainOf exChainPh 9 (some 300)).map (·.1) = some [300, 200, 150, 100] := by decide
+
 /-- Non-vacuity for the loaders: `0 2` (free head, object 1) and `5 1`, CR-only line ends, entries
 ending in space-CR, `trailer` followed by the dictionary on the same line. -/
 def exSubs : List Sub := [⟨0, 1, 1, [⟨0, 65535, false⟩, ⟨15, 0, true⟩]⟩, ⟨5, 2, 1, [⟨70, 3, true⟩]⟩]
@@ -272,6 +354,20 @@ example : (match tableLoad ([120, 114, 101, 102] ++ (LineEol.cr.bytes ++ (render
     | .error _ => false) = true := by decide
 
 
+
+/-- `SecLists` (hypothesis of `C02_written_rep`) DERIVED for classic tables: the table loaded from the
+text of ANY subsections (any grouping into runs, any order, `f` lines anywhere) answers like the writer's
+entry list as soon as both hold the same `(number, entry)` pairs, every number once — down to the bytes
+`PDFXRef.load` read. -/
+theorem C02_table_lists (pre post : Bytes) (eol : LineEol) (ee : EntEol) (subs : List Sub)
+    (ents : List (Nat × Entry)) (hf : ∀ sb ∈ subs, SubFits sb) (hpost : TrailerLine post)
+    (h : sameAssocB (flatSubs subs) (entsInt ents) = true) :
+    ∃ offs tp, tableLoad (pre ++ (eol.bytes ++ (renderTable eol ee subs ++ (kwTrailer ++ post)))) pre.length =
+      .ok (offs, tp) ∧ SecLists (.table offs) ents :=
+  ⟨_, _, C02_table_load pre post eol ee subs hf hpost, secLists_table subs ents h⟩
+
+/-- objects 5, 1 (file order of the body) against the table `0 2` (free head, object 1) + `5 1` -/
+example : sameAssocB (flatSubs exSubs) (entsInt [(5, ⟨none, 70, 3⟩), (1, ⟨none, 15, 0⟩)]) = true := by decide
 
 /-- From the written lines to `Rep`: a loaded classic table represents revision `r` as soon as
 the written subsections do (last in-use line per number leads to `r`'s value) — the hypothesis of
@@ -300,6 +396,71 @@ theorem C02_stream_represents (whole : History) (objs : List (Nat × Nat × Nat 
   simp only [Section.getPos]
   rw [C02_xrefstm_entry ranges w1 w2 w3 rows hf hlen n, hrow]
   exact this
+
+/-! ## `Rep` derived for every file the (structural) writer lays out -/
+
+/-- For EVERY file body — any number of (sub-)revisions, objects of the parts of a hybrid revision
+interleaved, direct objects of any positive length separated by any gaps, object-stream members —
+if each loaded section answers like the entry list the writer put into it (`SecLists`: what
+`C02_table_lookup` / `C02_stream_load` give from the bytes) then the sections represent the history
+the file means.  The only side conditions left are `WFile.ok`: lengths positive, members as their
+containers hold them. -/
+theorem C02_written_rep (f : WFile) (secsOld : List Section) (hs : SecsList secsOld f.ents)
+    (hok : f.ok = true) : Rep f.history f.store secsOld.reverse f.history := by
+  have hall : ∀ o ∈ f.objs, wobjOK f.history o = true := by
+    have := hok
+    simp only [WFile.ok, List.all_eq_true] at this
+    exact this
+  have hl : LensPos f.objs := by
+    intro o ho gap len gen hp
+    have := hall o ho
+    simp only [wobjOK, hp, decide_eq_true_eq] at this
+    exact this
+  have hmem : ∀ o ∈ f.objs, ∀ c idx, o.place = .member c idx → memberOK f.history c idx o.val = true := by
+    intro o ho c idx hp
+    have := hall o ho
+    simp only [wobjOK, hp] at this
+    exact this
+  exact subRevs_rep f.history f.store f.objs f.start f.trailers 0 secsOld hs
+    (placeObjs_keys f.objs f.start hl).2.2 hmem
+
+/-- Newest definition wins END TO END on the writer's output: no per-file hypothesis about offsets
+or sections is left. -/
+theorem C02_written_newest_wins (f : WFile) (secsOld : List Section) (hs : SecsList secsOld f.ents)
+    (hok : f.ok = true) (n : Nat) : getobj f.store secsOld.reverse n = specGetobj f.history n :=
+  C02_newest_wins (C02_written_rep f secsOld hs hok) n
+
+/-- Non-vacuity: two revisions; the older one is hybrid-like (objects of sub-revisions 0 and 1
+interleaved), object 3 lives in object stream 5, revision 2 overrides object 2. -/
+def exFile : WFile :=
+  ⟨9, [⟨1, .plain 10, .direct 0 20 0, 0⟩, ⟨5, .objstm 50 1 [.num 3, .num 0, .val 30], .direct 2 40 0, 1⟩,
+       ⟨2, .plain 20, .direct 0 15 0, 0⟩, ⟨3, .plain 30, .member 5 0, 1⟩,
+       ⟨2, .plain 22, .direct 120 18 1, 2⟩],
+   [(1, none), (1, none), (1, some 2)]⟩
+
+example : exFile.ok = true ∧ exFile.store.map (·.1) = [9, 31, 71, 206] ∧
+    exFile.ents = [[(1, ⟨none, 9, 0⟩), (2, ⟨none, 71, 0⟩)], [(5, ⟨none, 31, 0⟩), (3, ⟨some 5, 0, 0⟩)],
+      [(2, ⟨none, 206, 1⟩)]] := by decide
+
+example : getobj exFile.store ((exFile.ents.map (fun e => Section.table (e.map (fun p => ((p.1 : Int), p.2))))).reverse) 3 =
+    .ok (.plain 30) := by decide
+
+/-- `SecLists` DERIVED for cross-reference streams: the section written as ANY non-overlapping `/Index`
+ranges, widths and rows (free rows and rows of unknown type anywhere) answers like the writer's entry list
+as soon as its in-use rows are that list (any order). -/
+theorem C02_stream_lists (ranges : List (Nat × Nat)) (w1 w2 w3 : Nat) (rows : List Row) (ents : List (Nat × Entry))
+    (hf : ∀ row ∈ rows, FitsRow w1 w2 w3 row) (hlen : sumCounts ranges ≤ rows.length)
+    (h : streamListsB ranges rows ents = true) :
+    SecLists (.stream ⟨ranges, w1, w2, w3, encodeRows w1 w2 w3 rows⟩) ents := by
+  intro n
+  have hrow : rowEntry = specRowEntry := funext C02_row_types
+  simp only [Section.getPos]
+  rw [C02_xrefstm_entry ranges w1 w2 w3 rows hf hlen n, hrow]
+  exact rowSpec_lists ranges rows ents hlen h n
+
+/-- `/Index [0 2 5 2]`, rows free / direct@15 / member 1 of stream 5 / direct@90: three in-use rows. -/
+example : streamListsB [(0, 2), (5, 2)] [(0, 0, 255), (1, 15, 0), (2, 5, 1), (1, 90, 0)]
+    [(6, ⟨none, 90, 0⟩), (1, ⟨none, 15, 0⟩), (5, ⟨some 5, 1, 0⟩)] = true := by decide
 
 /-! ## Termination of the line loops, and the body scan -/
 
@@ -365,6 +526,123 @@ theorem C02_startxref_bufsize (b : Nat) (hb : 1 ≤ b) (data : Bytes) :
 example : (match findXref 3 ([115, 116, 97, 114, 116, 120, 114, 101, 102, 10, 55, 10, 37, 37, 69, 79, 70, 10] ++
     [120, 10] ++ [115, 116, 97, 114, 116, 120, 114, 101, 102, 13, 10, 49, 50, 51, 13, 10, 37, 37, 69, 79, 70, 13, 10])
     with | .ok n => n == 123 | .error _ => false) = true := by decide
+
+/-! ## Locating `startxref`: the backward scan finds the LAST one, for every tail layout -/
+
+/-- `find_xref` on ANY file whose end consists of well-formed lines — the keyword line `kw`, blank
+lines `middle`, the first non-blank line `num`, then any lines `after` none of which is the keyword —
+returns the number on `num` (or `PDFNoValidXRef` when it is not all digits), whatever precedes the
+keyword line (`pre`: older revisions with their own `startxref` lines included) and for every read
+buffer size. -/
+theorem C02_find_xref (b : Nat) (hb : 1 ≤ b) (pre : Bytes) (kw num : RLine) (middle after : List RLine)
+    (hk : kw.OK) (hn : num.OK) (hm : ∀ l ∈ middle, l.OK) (ha : ∀ l ∈ after, l.OK)
+    (hkw : strip kw.bytes = kwStartxref) (hmid : ∀ l ∈ middle, strip l.bytes = [])
+    (hnum1 : strip num.bytes ≠ []) (hnum2 : strip num.bytes ≠ kwStartxref)
+    (hafter : ∀ l ∈ after, strip l.bytes ≠ kwStartxref) :
+    findXref b (pre ++ rlinesBytes (kw :: middle ++ num :: after)) =
+      if isDigits (strip num.bytes) then .ok (decNat (strip num.bytes)) else .error .noValidXRef := by
+  unfold findXref
+  rw [C02_revreadlines_bufsize b hb]
+  exact findXref_layout_bytes pre kw num middle after hk hn hm ha hkw hmid hnum1 hnum2 hafter
+
+/-- No line of the file is the keyword: `PDFNoValidXRef("Unexpected EOF")` (the body scan follows). -/
+theorem C02_find_xref_none (b : Nat) (hb : 1 ≤ b) (data : Bytes)
+    (h : ∀ l ∈ revLines data, strip l ≠ kwStartxref) : findXref b data = .error .noValidXRef := by
+  unfold findXref
+  rw [C02_revreadlines_bufsize b hb]
+  exact findXrefLines_none _ _ h
+
+/-- The writer's tail in full generality: after any bytes `pre` ending in an EOL byte, the keyword,
+the offset written with `w` digits and `%%EOF`, each followed by any number of blanks, separated by
+one or more EOLs of the file's style and ended by any number (also zero) of EOLs:
+`find_xref` returns exactly the offset written. -/
+theorem C02_find_xref_tail (b : Nat) (hb : 1 ≤ b) (pre : Bytes) (e0 : UInt8) (he0 : isEol e0 = true)
+    (eol : LineEol) (s1 s2 s3 k1 k2 k3 w n : Nat) (hw : 0 < w) (hn : n < 10 ^ w) :
+    findXref b (pre ++ e0 :: renderTailG eol s1 s2 s3 k1 k2 k3 w n) = .ok n := by
+  unfold findXref
+  rw [C02_revreadlines_bufsize b hb]
+  unfold renderTailG
+  have hsp : ∀ k, ∀ x ∈ blanks k, x = 32 := by
+    intro k x hx
+    exact (List.mem_replicate.mp hx).2
+  have hdne : renderDec w n ≠ [] := by
+    intro h
+    have := length_renderDec w n
+    rw [h] at this
+    simp at this; omega
+  rw [findXref_tail_bytes pre e0 he0 (blanks s1) (blanks s2) (blanks s3) (eolRep eol (k1 + 1))
+    (eolRep eol (k2 + 1)) (eolRep eol k3) (renderDec w n) (hsp s1) (hsp s2) (hsp s3)
+    (eolRep_eol eol _) (eolRep_eol eol _) (eolRep_eol eol _) (eolRep_succ_ne eol k1) (eolRep_succ_ne eol k2)
+    hdne (renderDec_digits w n), decNat_renderDec w n hn]
+
+/-- The four tails of the harness writer (compared byte for byte with what it wrote: `q.tail`). -/
+theorem C02_find_xref_written (b : Nat) (hb : 1 ≤ b) (pre : Bytes) (e0 : UInt8) (he0 : isEol e0 = true)
+    (ts : TailStyle) (eol : LineEol) (w n : Nat) (hw : 0 < w) (hn : n < 10 ^ w) :
+    findXref b (pre ++ e0 :: renderTail ts eol w n) = .ok n := by
+  cases ts <;> exact C02_find_xref_tail b hb pre e0 he0 eol _ _ _ _ _ _ w n hw hn
+
+/-- Non-vacuity: an older revision's `startxref⏎7⏎%%EOF⏎` stands before; CR LF tail with blanks and
+a blank line; the offset 123 of the LAST keyword is returned. -/
+example : findXref 4 (([115, 116, 97, 114, 116, 120, 114, 101, 102, 10, 55, 10, 37, 37, 69, 79, 70] : Bytes) ++
+    10 :: renderTail .blank .crlf 3 123) = .ok 123 :=
+  C02_find_xref_written 4 (by omega) _ 10 (by decide) .blank .crlf 3 123 (by omega) (by omega)
+
+example : renderTail .spaces .cr 2 45 =
+    [115, 116, 97, 114, 116, 120, 114, 101, 102, 32, 13, 52, 53, 32, 32, 13, 37, 37, 69, 79, 70, 32, 13] := by decide
+
+/-- a number line that is not all digits → `PDFNoValidXRef` (hypotheses of `C02_find_xref` satisfiable) -/
+example : findXref 2 ([37, 10] ++ rlinesBytes [⟨10, kwStartxref⟩, ⟨13, []⟩, ⟨10, [49, 120]⟩, ⟨10, kwEOF⟩]) =
+    .error .noValidXRef := by
+  exact (C02_find_xref 2 (by omega) [37, 10] ⟨10, kwStartxref⟩ ⟨10, [49, 120]⟩ [⟨13, []⟩] [⟨10, kwEOF⟩]
+    (by decide) (by decide) (by decide) (by decide) (by decide) (by decide) (by decide) (by decide)
+    (by decide)).trans rfl
+
+example : findXref 3 [37, 80, 68, 70, 10, 120, 114, 101, 102, 10] = .error .noValidXRef :=
+  C02_find_xref_none 3 (by omega) _ (by decide)
+
+/-! ## End to end: the document opened on a written file answers "newest wins" -/
+
+/-- Capstone.  A file that ends (after any bytes and an EOL byte) with one of the writer's tails giving
+offset `start`; whose sections form a chain of plain / hybrid revisions from `start`; whose body is laid
+out by the Lean file writer `f` and whose loaded sections list what `f` wrote into them: opening it —
+backward scan for `startxref` with ANY read-buffer size, `read_xref_from` along the whole chain — and
+asking for ANY object number gives the value of the newest revision defining it (`PDFObjectNotFound`
+when none does). -/
+theorem C02_end_to_end (b : Nat) (hb : 1 ≤ b) (pre : Bytes) (e0 : UInt8) (he0 : isEol e0 = true)
+    (ts : TailStyle) (eol : LineEol) (w start : Nat) (hw : 0 < w) (hst : start < 10 ^ w)
+    (secs : List (Nat × SecDesc)) (f : WFile) (ps : List Nat) (L : List (Section × Trailer))
+    (hchain : Chain ⟨pre ++ e0 :: renderTail ts eol w start, secs, f.store⟩ (some start) ps L)
+    (hnd : ps.Nodup) (hfuel : ps.length < secs.length + 2)
+    (hs : SecsList (L.map (·.1)).reverse f.ents) (hok : f.ok = true) (n : Nat) :
+    (openPhys ⟨pre ++ e0 :: renderTail ts eol w start, secs, f.store⟩ b).map
+      (fun d => getobj f.store (d.map (·.1)) n) = .ok (specGetobj f.history n) := by
+  unfold openPhys
+  simp only [C02_find_xref_written b hb pre e0 he0 ts eol w start hw hst]
+  rw [C02_chain _ start ps L hchain hnd _ hfuel]
+  have := C02_written_newest_wins f (L.map (·.1)).reverse hs hok n
+  rw [List.reverse_reverse] at this
+  simp only [Except.map, this]
+
+/-- Non-vacuity of the capstone: a one-revision file (object 1 at offset 9, 20 bytes long, listed by a
+cross-reference stream with `/Index [1 1]`, `W [1 1 1]` at offset 40), tail `startxref⏎40⏎%%EOF⏎`. -/
+def exE2EFile : WFile := ⟨9, [⟨1, .plain 10, .direct 0 20 0, 0⟩], [(1, none)]⟩
+def exE2ESecs : List (Nat × SecDesc) := [(40, .stream 2 (some [1, 1]) [1, 1, 1] [1, 9, 0] ⟨none, none, some 1, none⟩)]
+
+theorem exE2E_lists : SecLists (.stream ⟨[(1, 1)], 1, 1, 1, [1, 9, 0]⟩) [(1, ⟨none, 9, 0⟩)] := by
+  intro n
+  by_cases h : n = 1
+  · subst h; decide
+  · have h1 : ¬ (1 ≤ n ∧ n < 1 + 1) := by omega
+    have h2 : ((1 : Nat) == n) = false := by simpa using Ne.symm h
+    simp [Section.getPos, XStream.getPos, findIndex_cons, findIndex_nil, h1, lookupNat, h2]
+
+example (pre : Bytes) (b : Nat) (hb : 1 ≤ b) (n : Nat) :
+    (openPhys ⟨pre ++ 10 :: renderTail .plain .lf 2 40, exE2ESecs, exE2EFile.store⟩ b).map
+      (fun d => getobj exE2EFile.store (d.map (·.1)) n) = .ok (specGetobj exE2EFile.history n) :=
+  C02_end_to_end b hb pre 10 (by decide) .plain .lf 2 40 (by omega) (by omega) exE2ESecs exE2EFile [40]
+    [(.stream ⟨[(1, 1)], 1, 1, 1, [1, 9, 0]⟩, ⟨none, none, some 1, none⟩)]
+    (Chain.plain (p := 40) rfl rfl rfl Chain.done) (by decide) (by decide)
+    (SecsList.cons exE2E_lists SecsList.nil) (by decide) n
 
 /-! ## Open finding: cross-reference data that parses but is wrong is never rebuilt -/
 
